@@ -389,7 +389,32 @@ def chain_target(t):
     return t
 
 
+def d6_explicit_settings(ctx):
+    ctx.rule("D6", "a spatial-filter setting passed explicitly as 0 reaches the filter as 0 (no `p or default` swallowing it)")
+    repo = ctx.repo
+    from sa.common import swallowed_falsy_arguments
+    n = 0
+    for q in (MOD + ".kfilt", MOD + ".fk", MOD + ".car", MOD + ".agc", MOD + ".destripe", MOD + ".destripe_lfp"):
+        fi = repo.fn(q)
+        hits = swallowed_falsy_arguments(repo, fi)
+        n += 1
+        if not hits:
+            ctx.ok(fi, fi.node, f"{q.split('.')[-1]}: no explicit falsy setting is replaced", "explicit settings are honoured", key="falsy:" + q)
+        for p, expr, caller, call, v in hits:
+            ctx.violation(fi, expr, expr, f"`{src(expr)}` replaces a falsy `{p}` by a default, but {caller.qualname} passes {p}={src(v)} explicitly "
+                          f"(`{src(call)[:70]}`): the requested setting is silently replaced (for the k-filter: the mirrored padding gets tapered and the "
+                          "common-mode stripe leaks back at both ends of the probe)", key=f"falsy:{q}:{p}", name_free=True)
+
+
+def dS_shared(ctx):
+    from sa.common import rule_no_shared_mutation
+    rule_no_shared_mutation(ctx, "DS", ['ibldsp.voltage.destripe', 'ibldsp.voltage.destripe_lfp', 'ibldsp.voltage.kfilt', 'ibldsp.voltage.fk', 'ibldsp.voltage.car', 'ibldsp.voltage.agc', 'ibldsp.voltage._get_destripe_parameters', 'neuropixel.adc_shifts'],
+                            'the second destriping call works with filter tables the first one modified')
+
+
 def run(ctx):
+    ctx.run(dS_shared)
+    ctx.run(d6_explicit_settings)
     ctx.run(d1_forwarding)
     ctx.run(d2_shift_before_spatial)
     ctx.run(d3_outside_brain)
